@@ -8,30 +8,35 @@ From Coq Require Import Permutation.
 From TL Require Import Lib.Base Lib.GenTypes Gen.OrchHistGen Model.OrchHist Model.OrchHistRun
      Proofs.OrchHistBase Proofs.OrchHistMain.
 
-(* 1. History independence.  For every quirk vector with the two remaining state flags off (the DRY storage is reset by finalize() since fix 8b82489: read from the source, no flag needed), every initial file system and
+(* 1. History independence.  For every quirk vector with the four remaining state flags off (bare lint_file evidence, ignore-parser reuse, and the two
+      sticky configurations of DRYRule and FilePlacementRule) (the DRY storage is reset by finalize() since fix 8b82489: read from the source, no flag needed), every initial file system and
       every admissible history of lint calls (file / file list / directory / Linter.lint) interleaved with edits,
-      deletions, additions and the construction of a new Linter for the same root in the same process: the i-th call
+      deletions, additions, the construction of a new Linter for the same root in the same process and the reloading of the
+      configuration file into the live object: the i-th call
       returns exactly what a fresh object (in a fresh process) returns on the file system as it is at that moment.
       Admissible (hist_synced): configuration is read when an object is built, so no lint call is made between a change
-      of the ignore file and the construction of the next Linter. *)
+      of the ignore file and the construction of the next Linter, nor between a change of the configuration file and the next
+      construction / reload.  Rule behaviour is a function of (path, content, configuration in force when the file was checked). *)
 Theorem C08_history_independent :
-  forall V perfile rep_blocks rep_consts rep_st hard_excl ignored ign_path in_dir q fs0 h,
+  forall V perfile perfile_fp rep_blocks rep_consts rep_st hard_excl ignored ign_path cfg_path in_dir q fs0 h,
   q_lintfile_leaves_evidence q = false -> q_ignore_parser_reused q = false ->
-  hist_synced ign_path false h = true ->
-  snd (run V perfile rep_blocks rep_consts rep_st hard_excl ignored ign_path in_dir q (mk_init ign_path fs0, fs0) h)
-  = fresh_run V perfile rep_blocks rep_consts rep_st hard_excl ignored ign_path in_dir q fs0 h.
+  q_fp_config_sticky q = false -> q_dry_config_sticky q = false ->
+  hist_synced ign_path cfg_path false false h = true ->
+  snd (run V perfile perfile_fp rep_blocks rep_consts rep_st hard_excl ignored ign_path cfg_path in_dir q (mk_init ign_path cfg_path fs0, fs0) h)
+  = fresh_run V perfile perfile_fp rep_blocks rep_consts rep_st hard_excl ignored ign_path cfg_path in_dir q fs0 h.
 Proof. exact history_independent. Qed.
 Print Assumptions C08_history_independent.
 
 (* ... and for EVERY quirk vector, in particular the one claimed for the current tree (partial: the full statement is the
-   theorem above): histories without bare Orchestrator.lint_file calls and without rebuilding the Linter in the same
-   process - directory / file-list runs and Linter.lint, as the CLI and the documented API usage make them. *)
+   theorem above): histories without bare Orchestrator.lint_file calls, without rebuilding the Linter in the same
+   process and without reloading the configuration of a live object - directory / file-list runs and Linter.lint, as the CLI and the documented API usage make them. *)
 Theorem C08_history_independent_faithful_partial :
-  forall V perfile rep_blocks rep_consts rep_st hard_excl ignored ign_path in_dir q fs0 h,
+  forall V perfile perfile_fp rep_blocks rep_consts rep_st hard_excl ignored ign_path cfg_path in_dir q fs0 h,
   forallb (fun o => negb (bare_single q o)) h = true -> forallb (fun o => negb (is_new_linter o)) h = true ->
-  hist_synced ign_path false h = true ->
-  snd (run V perfile rep_blocks rep_consts rep_st hard_excl ignored ign_path in_dir q (mk_init ign_path fs0, fs0) h)
-  = fresh_run V perfile rep_blocks rep_consts rep_st hard_excl ignored ign_path in_dir q fs0 h.
+  forallb (fun o => negb (is_reload o)) h = true ->
+  hist_synced ign_path cfg_path false false h = true ->
+  snd (run V perfile perfile_fp rep_blocks rep_consts rep_st hard_excl ignored ign_path cfg_path in_dir q (mk_init ign_path cfg_path fs0, fs0) h)
+  = fresh_run V perfile perfile_fp rep_blocks rep_consts rep_st hard_excl ignored ign_path cfg_path in_dir q fs0 h.
 Proof. exact history_independent_faithful. Qed.
 Print Assumptions C08_history_independent_faithful_partial.
 
@@ -45,28 +50,29 @@ Print Assumptions C08_api_file_call_finalizes.
       permutes the result of every call of the history (per origin: per-file, blocks, constants, stringly) - for every quirk
       vector: the duplicate-constant report sees its evidence in canonical order since fix 5ce39e3 (read from the source). *)
 Theorem C08_order_independent :
-  forall V perfile rep_blocks rep_consts rep_st hard_excl ignored ign_path in_dir,
-  (forall l l' a a', Permutation l l' -> Permutation a a' -> Permutation (rep_blocks l a) (rep_blocks l' a')) ->
+  forall V perfile perfile_fp rep_blocks rep_consts rep_st hard_excl ignored ign_path cfg_path in_dir,
+  (forall k l l' a a', Permutation l l' -> Permutation a a' -> Permutation (rep_blocks k l a) (rep_blocks k l' a')) ->
   (forall l l', Permutation l l' -> Permutation (rep_st l) (rep_st l')) ->
   forall q fs0 h h',
   Forall2 op_perm h h' ->
   Forall2 (out_perm V)
-    (snd (run V perfile rep_blocks rep_consts rep_st hard_excl ignored ign_path in_dir q (mk_init ign_path fs0, fs0) h))
-    (snd (run V perfile rep_blocks rep_consts rep_st hard_excl ignored ign_path in_dir q (mk_init ign_path fs0, fs0) h')).
+    (snd (run V perfile perfile_fp rep_blocks rep_consts rep_st hard_excl ignored ign_path cfg_path in_dir q (mk_init ign_path cfg_path fs0, fs0) h))
+    (snd (run V perfile perfile_fp rep_blocks rep_consts rep_st hard_excl ignored ign_path cfg_path in_dir q (mk_init ign_path cfg_path fs0, fs0) h')).
 Proof. exact order_independent. Qed.
 Print Assumptions C08_order_independent.
 
 (* 3. Both together: results are a function of the current file system and the call alone. *)
 Theorem C08_results_depend_on_current_state_only :
-  forall V perfile rep_blocks rep_consts rep_st hard_excl ignored ign_path in_dir,
-  (forall l l' a a', Permutation l l' -> Permutation a a' -> Permutation (rep_blocks l a) (rep_blocks l' a')) ->
+  forall V perfile perfile_fp rep_blocks rep_consts rep_st hard_excl ignored ign_path cfg_path in_dir,
+  (forall k l l' a a', Permutation l l' -> Permutation a a' -> Permutation (rep_blocks k l a) (rep_blocks k l' a')) ->
   (forall l l', Permutation l l' -> Permutation (rep_st l) (rep_st l')) ->
   forall q fs0 h h',
-  q_lintfile_leaves_evidence q = false -> q_ignore_parser_reused q = false -> hist_synced ign_path false h = true ->
+  q_lintfile_leaves_evidence q = false -> q_ignore_parser_reused q = false ->
+  q_fp_config_sticky q = false -> q_dry_config_sticky q = false -> hist_synced ign_path cfg_path false false h = true ->
   Forall2 op_perm h h' ->
   Forall2 (out_perm V)
-    (snd (run V perfile rep_blocks rep_consts rep_st hard_excl ignored ign_path in_dir q (mk_init ign_path fs0, fs0) h'))
-    (fresh_run V perfile rep_blocks rep_consts rep_st hard_excl ignored ign_path in_dir q fs0 h).
+    (snd (run V perfile perfile_fp rep_blocks rep_consts rep_st hard_excl ignored ign_path cfg_path in_dir q (mk_init ign_path cfg_path fs0, fs0) h'))
+    (fresh_run V perfile perfile_fp rep_blocks rep_consts rep_st hard_excl ignored ign_path cfg_path in_dir q fs0 h).
 Proof. exact results_depend_on_current_state_only. Qed.
 Print Assumptions C08_results_depend_on_current_state_only.
 
@@ -82,21 +88,23 @@ Print Assumptions C08_canonical_order.
 (* 5. In the model, lint operations never change the file system (the implementation's freedom from side effects
       is observed by snapshots, not proved). *)
 Theorem C08_lint_ops_preserve_fs :
-  forall V perfile rep_blocks rep_consts rep_st hard_excl ignored ign_path in_dir q st fs o,
+  forall V perfile perfile_fp rep_blocks rep_consts rep_st hard_excl ignored ign_path cfg_path in_dir q st fs o,
   lint_op o = true ->
-  snd (fst (step V perfile rep_blocks rep_consts rep_st hard_excl ignored ign_path in_dir q (st, fs) o)) = fs.
+  snd (fst (step V perfile perfile_fp rep_blocks rep_consts rep_st hard_excl ignored ign_path cfg_path in_dir q (st, fs) o)) = fs.
 Proof. exact lint_ops_preserve_fs. Qed.
 Print Assumptions C08_lint_ops_preserve_fs.
 
 (* non-vacuity: a history with edits and deletions whose calls report cross-file findings (symbolic rule instance) *)
-Definition ex_dirs : list (nat * list nat) := [(0, [0; 1; 2; 9]); (1, [2])].
+Definition ex_dirs : list (nat * list nat) := [(0, [0; 1; 2; 8; 9]); (1, [2])].
 Definition ex_ign : list (nat * list nat) := [(0, []); (5, [1])].    (* version 4 of the ignore file (path 9) ignores path 1 *)
+(* path 8 is the configuration file (versions 0 and 1), path 9 the ignore file; a file version is content * 8 + configuration key *)
 Definition ex_hist : list op :=
-  [ApiLint (TDir 0 [2; 0; 1]); Delete 2; LintFile 0; Add 9 4; NewLinter; Edit 0 7; LintFiles [1; 0]].
+  [ApiLint (TDir 0 [2; 0; 1]); Delete 2; LintFile 0; Add 9 4; NewLinter; Edit 8 1; ReloadConfig; LintFiles [1; 0]].
 Example C08_nonvacuous :
-  hist_synced 9 false ex_hist = true /\
-  map out_all (sym_run [] ex_ign 9 ex_dirs ideal [(0, 0); (1, 1); (2, 2)] ex_hist)
-  = [ [TPer 2 (Some 2); TPer 0 (Some 0); TPer 1 (Some 1); TRep 0 3 [(2, 2); (0, 0); (1, 1)]; TRep 1 0 [(0, 0); (1, 1); (2, 2)]; TRep 2 0 [(2, 2); (0, 0); (1, 1)]];
-      []; [TPer 0 (Some 0)]; []; []; [];
-      [TPer 0 (Some 7); TRep 0 1 [(0, 7)]; TRep 1 0 [(0, 7)]; TRep 2 0 [(0, 7)]] ].
+  hist_synced 9 8 false false ex_hist = true /\
+  map out_all (sym_run [] ex_ign 9 8 ex_dirs ideal [(0, 0); (1, 1); (2, 2); (8, 0)] ex_hist)
+  = [ [TPer 2 (Some 17); TFp 2 (Some 17); TPer 0 (Some 1); TFp 0 (Some 1); TPer 1 (Some 9); TFp 1 (Some 9);
+       TRep 0 3 1 [(2, 17); (0, 1); (1, 9)]; TRep 1 0 1 [(0, 1); (1, 9); (2, 17)]; TRep 2 0 0 [(2, 17); (0, 1); (1, 9)]];
+      []; [TPer 0 (Some 1); TFp 0 (Some 1)]; []; []; []; [];
+      [TPer 0 (Some 2); TFp 0 (Some 2); TRep 0 1 2 [(0, 2)]; TRep 1 0 2 [(0, 2)]; TRep 2 0 0 [(0, 2)]] ].
 Proof. vm_compute. split; reflexivity. Qed.
